@@ -857,8 +857,29 @@ class Interp:
             return bool(v2)
         if isinstance(v, ACond):
             k = v.key()
-            if k not in self.st.conds:
-                self.st.conds[k] = self.st.choose(f"{label}:{v.kind}")
+            if k in self.st.conds:
+                return self.st.conds[k]
+            # equality of two symbolic values is a conjunction of LINEAR equations l_j ^ r_j = 0: decided like a comparison with a
+            # constant (the true branch learns them, the false branch remembers the disequality) instead of guessing blindly
+            if v.kind == "not" and len(v.parts) == 1 and isinstance(v.parts[0], ACond):
+                r = not self.decide(v.parts[0], label)
+                self.st.conds[k] = r
+                return r
+            if v.kind in ("eq", "eqseq") and len(v.parts) == 2:
+                a, b = v.parts
+                fa = fb = None
+                if v.kind == "eq" and isinstance(a, AInt) and isinstance(b, AInt) and a.ext is None and b.ext is None and not a.signed and not b.signed:
+                    w = max(len(a.bits), len(b.bits))
+                    fa, fb = [a.bit(j) for j in range(w)], [b.bit(j) for j in range(w)]
+                elif v.kind == "eqseq" and isinstance(a, ABits) and isinstance(b, ABits) and len(a.items) == len(b.items):
+                    fa, fb = list(a.items), list(b.items)
+                if fa is not None and all(isinstance(x, F) for x in fa + fb):
+                    d = [x ^ y for x, y in zip(fa, fb)]
+                    if not any(self._is_fn_form(x) for x in d) and d:
+                        r = self.decide_eq(d, 0, f"{label}:{v.kind}")
+                        self.st.conds[k] = r
+                        return r
+            self.st.conds[k] = self.st.choose(f"{label}:{v.kind}")
             return self.st.conds[k]
         if isinstance(v, ABits):
             return len(v.items) > 0
@@ -869,6 +890,14 @@ class Interp:
         if isinstance(v, (ATable, AView)):
             raise Abort("truth value of array")
         return bool(v)
+
+    def _is_fn_form(self, f) -> bool:
+        """does the form mention an uninterpreted-function atom?  (nothing is learnt about those by guessing their value)"""
+        for a in f.atoms():
+            nm = self.atoms.names[a]
+            if isinstance(nm, tuple) and nm and nm[0] == "fn":
+                return True
+        return False
 
     # ---- calling repo functions
     def call(self, fi: FuncInfo, args: List[Any], kwargs: Dict[str, Any], bound_cls: Optional[ClassInfo] = None, closure: Optional[dict] = None):
